@@ -13,10 +13,13 @@
 (*   body(a1..an):                                                         *)
 (*     S = sum of the shared captures                                      *)
 (*     if a1 <= 0 { every mutable capture += 1; return S + an }            *)
-(*     every mutable capture = 2*capture + a1 + S                          *)
+(*     every mutable capture = 2*capture + a1 + S + H(a1)                  *)
 (*     r1 = rec(a1-1, a3, .., an, a2)            (tail arguments rotated)  *)
 (*     r2 = if a1 even { rec(a1-2, a2, .., an) } else { 0 }                *)
-(*     return r1 + 3*r2 + a1 * (first shared capture, or 1)                *)
+(*     return r1 + 3*r2 + a1 * (first shared capture, or 1) + H(a1)        *)
+(*   where H(x) = x mod 3 is a free helper function; in the generated      *)
+(*   programs it carries the very name of the recursion macro (functions   *)
+(*   and macros live in different namespaces, so the body must reach it).  *)
 (*                                                                         *)
 (* It reads every shared capture, mutates every mutable one, branches on   *)
 (* the arguments and recurses twice with permuted / decremented arguments. *)
@@ -44,6 +47,8 @@ FirstShared(sh, caps) ==
 Rotate(args) ==      \* (a1, a2, a3, .., an) -> (a1, a3, .., an, a2)
     IF Len(args) <= 2 THEN args ELSE <<args[1]>> \o SubSeq(args, 3, Len(args)) \o <<args[2]>>
 
+Helper(x) == x % 3      \* arguments reaching it are >= 1
+
 RECURSIVE Run(_, _, _)
 \* the meaning of one call: [ret |-> value, caps |-> captured variables afterwards]
 Run(sh, caps, args) ==
@@ -52,10 +57,10 @@ Run(sh, caps, args) ==
     IN IF a1 <= 0
        THEN [ret |-> S + args[Len(args)],
              caps |-> [i \in 1 .. Len(caps) |-> IF sh.caps[i] = "mut" THEN caps[i] + 1 ELSE caps[i]]]
-       ELSE LET c1 == [i \in 1 .. Len(caps) |-> IF sh.caps[i] = "mut" THEN 2 * caps[i] + a1 + S ELSE caps[i]]
+       ELSE LET c1 == [i \in 1 .. Len(caps) |-> IF sh.caps[i] = "mut" THEN 2 * caps[i] + a1 + S + Helper(a1) ELSE caps[i]]
                 r1 == Run(sh, c1, Rotate([args EXCEPT ![1] = a1 - 1]))
                 r2 == IF a1 % 2 = 0 THEN Run(sh, r1.caps, [args EXCEPT ![1] = a1 - 2]) ELSE [ret |-> 0, caps |-> r1.caps]
-            IN [ret |-> r1.ret + 3 * r2.ret + a1 * FirstShared(sh, caps), caps |-> r2.caps]
+            IN [ret |-> r1.ret + 3 * r2.ret + a1 * FirstShared(sh, caps) + Helper(a1), caps |-> r2.caps]
 
 InitCaps(sh) == [i \in 1 .. Len(sh.caps) |-> i + 2]
 Inputs(sh) == {[j \in 1 .. sh.nargs |-> IF j = 1 THEN a ELSE 4 + j] : a \in {0, 3, 4}}
